@@ -1,8 +1,8 @@
 (** C12 — property theorems only.  Each is closed by [exact] of a lemma proved in Proofs*.v
     and followed by [Print Assumptions]. *)
-From Coq Require Import List ZArith NArith Bool Permutation.
+From Coq Require Import List ZArith NArith Bool Permutation Sorted.
 From Kardia Require Import Base.Int64 C12.Model C12.Spec C12.ProofsSort C12.ProofsUpdate C12.ProofsSpec
-     C12.ProofsFair C12.ProofsRefine C12.Open Generated.C12Facts.
+     C12.ProofsFair C12.ProofsRefine C12.ProofsUpdate2 C12.ProofsUpdate3 C12.ProofsUpdate4 C12.ProofsExamples C12.Open Generated.C12Facts.
 Import ListNotations.
 Local Open Scope Z_scope.
 
@@ -156,3 +156,95 @@ Theorem C12_no_starvation_within_call :
       In (v_addr v) props.
 Proof. exact spec_no_starvation. Qed.
 Print Assumptions C12_no_starvation_within_call.
+
+(** a successful UpdateWithChangeSet on a well-formed set with priorities within B0: no int64
+    operation wraps or clips on the way, the result is well-formed again (non-empty, distinct
+    addresses, positive powers, total <= cap, cache consistent), keeps the recorded proposer,
+    is within the window 2T' of its new total, centred (sum in [0, n)), every priority within
+    [-2T', 2T'], and ordered by (power descending, address ascending) *)
+Theorem C12_update_preserves_wellformed :
+  forall s cs allow s',
+    wf_set s -> bounded B0 (vs_vals s) -> cs <> [] ->
+    update_with_change_set s cs allow = Some (s', UOk) ->
+    wf_set s' /\ vs_proposer s' = vs_proposer s /\
+    within_window (2 * total_power (vs_vals s')) (vs_vals s') /\
+    0 <= sum_prio (vs_vals s') < Z.of_nat (length (vs_vals s')) /\
+    bounded (2 * total_power (vs_vals s')) (vs_vals s') /\
+    StronglySorted (fun a b => power_lt b a = false) (vs_vals s').
+Proof. exact update_preserves. Qed.
+Print Assumptions C12_update_preserves_wellformed.
+
+(** NewValidatorSet (when it does not panic) yields a well-formed set within the bounds whose
+    proposer is a member *)
+Theorem C12_new_validator_set_wellformed :
+  forall vals s,
+    vals <> [] -> new_validator_set vals = Some s ->
+    wf_set s /\ bounded B0 (vs_vals s) /\
+    exists a p, vs_proposer s = Some (a, p) /\
+                exists m, In m (vs_vals s) /\ v_addr m = a /\ v_power m = p.
+Proof. exact new_validator_set_good. Qed.
+Print Assumptions C12_new_validator_set_wellformed.
+
+(** invariant of every history NewValidatorSet / IncrementProposerPriority(times) /
+    UpdateWithChangeSet: from a good state (well-formed, priorities within 3 * 2^60) an
+    increment with (times + 2) * T <= 3 * 2^60 (always true for times = 1, the only value the
+    chain uses per block) does not panic, computes exactly the specified round-robin over
+    unbounded integers and ends in a good state; an update that returns an error leaves the
+    state untouched, one that succeeds ends in a good, centred state within the window.
+    Hence no int64 overflow anywhere in such histories. *)
+Theorem C12_no_overflow_history_step :
+  forall s o,
+    good s -> hop_ok s o ->
+    match o with
+    | HInc times =>
+      exists s' props, increment s (Z.pos times) = Some s' /\ good s' /\
+        spec_increment (vs_vals s) (Pos.to_nat times) (vs_vals s') props /\
+        exists p, vs_proposer s' = Some (last props 0%N, p)
+    | HUpd cs =>
+      forall s' e, update_with_change_set s cs true = Some (s', e) ->
+        match e with
+        | UOk => good s' /\
+            (cs <> [] -> within_window (2 * total_power (vs_vals s')) (vs_vals s') /\
+                         0 <= sum_prio (vs_vals s') < Z.of_nat (length (vs_vals s')))
+        | _ => s' = s
+        end
+    end.
+Proof. exact hop_preserves_good. Qed.
+Print Assumptions C12_no_overflow_history_step.
+
+(** UpdateWithChangeSet never panics on a good state (in particular: the total predicted by
+    verifyUpdates is the total recomputed after the merge, so updateTotalVotingPower cannot
+    find the set above the cap; applyRemovals finds every validator it has to delete; the
+    emptiness test is exact) *)
+Theorem C12_update_never_panics :
+  forall s cs allow, good s -> update_with_change_set s cs allow <> None.
+Proof. exact update_no_panic. Qed.
+Print Assumptions C12_update_never_panics.
+
+(** whole histories: from a good state (e.g. any NewValidatorSet result, by
+    C12_new_validator_set_wellformed), any sequence of UpdateWithChangeSet calls (valid or not)
+    and IncrementProposerPriority(times) calls with (times + 2) * cap <= 3 * 2^60 — that is
+    times = 1, one call per block as the chain does — runs without panic and without any
+    int64 wrap or clip, and ends in a good state *)
+Theorem C12_no_overflow_no_panic_histories :
+  forall s ops, good s -> Forall times_ok ops -> exists s', run_hops s ops = Some s' /\ good s'.
+Proof. exact histories_good. Qed.
+Print Assumptions C12_no_overflow_no_panic_histories.
+
+Theorem C12_times_one_ok : times_ok (HInc 1).
+Proof. exact times_ok_one. Qed.
+Print Assumptions C12_times_one_ok.
+
+(** refinement of the change-set step: a successful UpdateWithChangeSet on a good state yields
+    exactly what the declarative specification prescribes — the change set is valid (distinct
+    addresses, powers in 0..cap, removals only of members); the membership is the old members
+    not mentioned plus every entry with positive power, old members keep their priority,
+    newcomers start at -(T' + T'/8) with T' the total after the updates and before the
+    removals; result non-empty, total <= cap; then window and centring for the new total;
+    kept in (power descending, address ascending) order *)
+Theorem C12_update_refines_spec :
+  forall s cs allow s',
+    good s -> cs <> [] -> update_with_change_set s cs allow = Some (s', UOk) ->
+    spec_update max_total_voting_power (vs_vals s) cs (vs_vals s').
+Proof. exact update_refines_spec. Qed.
+Print Assumptions C12_update_refines_spec.
